@@ -18,6 +18,7 @@ RULE = ('valid programs (random derivations of the grammar, 1-5 statements, acce
         'f(r, a) of every call site. Non-trivial = a rewritten text differing from the base text was parsed and its tree compared; distinct = distinct (base, rewritten) text pair.')
 RULE += " Besides the neutral-tree comparison the implementation's own == on trees must hold; comment bodies contain FF/VT/FS-RS/NEL/U+2028/U+2029 followed by code-looking text; 15 % of the bases are preceded by an arbitrary earlier call."
 RULE += ' Pairs with equal trees are also evaluated (short programs always, others 8 %) with a dict, a __missing__ mapping, a defaultdict or a Counter as names: outcome, value and names must agree.'
+RULE += ' Base programs also come from the corpus grown by a coverage-guided fuzzing run per worker (atheris, differential target; 5 s quick, 100 s thorough): every corpus text that parses (<= 300 characters) goes through all rewrites.'
 ASSUMPTIONS = ['the oracle is the implementation\'s own tree of the base text (metamorphic); R1 is used only for positions',
                'parentheses are added only around complete subexpressions (never parameter names, call names, assignment/del targets or lambda parameter lists)',
                'comments are placed only before existing line ends; ; <-> newline only at bracket depth 0; no trailing comma for empty lists or lambda parameter lists']
@@ -36,6 +37,7 @@ def cases(ctx):
         for t in ['x.f(a, b,)', 'x | f(a, b,)', '{"a": 1, "b": 2,}', '{"a": 1,}', '[1, 2,]', 'f(1,)', 'f(\n1,\n2\n)', 'a = 1;b = 2', 'a = 1\r\nb = 2\r\n',
                   'x.f(a) + g(x, a) + (x | f(a))', 'x | f', 'x.f()', 'f(x)', '[a,\n b # c\n, c]', '-x.f(1)[2]', 'not a in b', 'a if b else c if d else e']:
             yield ('text', t)
+    yield ('cgf', rnd.getrandbits(30), ctx.scale(5, 100))          # bases from a coverage-guided corpus, one fuzzing process per worker
     for _ in range(ctx.scale(2500, 40000)):
         yield ('gen', rnd.getrandbits(48))
 
@@ -109,7 +111,34 @@ def eval_outcome(ctx, text, flavour):
     return out + (ADDR.sub('0x', repr(sorted(names.items(), key=lambda kv: str(kv[0]))))[:600],)
 
 
+def case_deadline(case):
+    return case[2] + 400 if case[0] == 'cgf' else CASE_DEADLINE
+
+
+def run_cgf(case, ctx):
+    """the corpus grown by a coverage-guided run (differential target of C06: texts that each reached parser/lexer code no earlier one had) as base programs:
+    every one that parses goes through all the rewrites of this check"""
+    from lib import cgdriver
+    _, seed, seconds = case
+    r = random.Random(seed)
+    seeds = ['x = [1, 2]\nx | map(v => v * 2)', 'f(1, {"a": b.c(d),}) if not x else y[1:2]', 'd["k"] += 1; del l[0]', '%a b% = r"\\d+" # c\n(p, q) => p ** -q', 'a and b not in c or not d == e',
+             'x.f(1, 2,) | g | h(3)', 'v => w => v if w else 0', '-a[1] ** -b.c()', '{1: [2, {"k": (3)}], "s": \'q\'}', 'f(a,\n b)\r\n[1,\n2]; x']
+    out = cgdriver.run(ctx, 'c06', seed, seconds, seeds)
+    if out is None:
+        return
+    n = 0
+    for text in cgdriver.corpus_texts(ctx, limit=ctx.scale(150, 3000)):
+        if len(text) > 300:
+            continue
+        b0 = ctx.counters['bases']
+        run_case(('text', text), ctx)
+        n += ctx.counters['bases'] - b0
+    ctx.count('bases_taken_from_a_coverage_guided_corpus', n)
+
+
 def run_case(case, ctx):
+    if case[0] == 'cgf':
+        return run_cgf(case, ctx)
     from lib import reflex
     if case[0] == 'text':
         try:
@@ -118,9 +147,12 @@ def run_case(case, ctx):
             return
         types = [t[0] for t in lt]
         toks = [(t[0], t[1]) for t in lt]
-        texts = [case[1][t[2]:(lt[i + 1][2] if i + 1 < len(lt) else len(case[1]))].strip(' \t') for i, t in enumerate(lt)]
-        texts = [x.split('#')[0].strip() if types[i] != 'STRING' else x for i, x in enumerate(texts)]
-        texts = [x if types[i] == 'STRING' or x in ('\n', '\r\n') else (x.strip() or '\n') for i, x in enumerate(texts)]
+        # source text of each token: from its start to the start of whatever comes next (a token, an ignored line break, a comment), blanks removed
+        starts = sorted(t[2] for t in reflex.tokens(case[1], keep_layout=True)) + [len(case[1])]
+        nxt = {a: b for a, b in zip(starts, starts[1:])}
+        texts = [case[1][t[2]:nxt[t[2]]] for t in lt]
+        texts = [x if types[i] == 'STRING' else (x if x in ('\n', '\r\n') else (x.strip(' \t') if types[i] != 'NEWLINE' else (x.strip(' \t') or '\n'))) for i, x in enumerate(texts)]
+        texts = [x.rstrip(' \t') if types[i] == 'STRING' else x for i, x in enumerate(texts)]
         r = random.Random(1)
     else:
         r = random.Random(case[1])
